@@ -532,6 +532,42 @@ def validate_init(ctx):
     _cmp(ctx, "pgen.init", reqs, wants)
 
 
+def validate_tzinfo(ctx):
+    from dateutil.parser import _parser as P
+    from dateutil import tz
+    rng = ctx.subrng("pgen.tzinfo")
+    p = P.parser()
+    names = [None, "", "BRST", "EST", "X", "UTC"]
+    strs = ["EST5EDT", "CET-1CEST,M3.5.0,M10.5.0/3", "UTC+3", "bad string", "", "BRST+3BRDT,M13.1.0,M2.3.0", "A" * 3 + "999999999999"]
+    def val():
+        k = rng.random()
+        if k < 0.25: return ("o", rng.randrange(len(L.tzobjs())))
+        if k < 0.5: return ("s", rng.choice(strs))
+        if k < 0.7: return ("i", rng.choice([0, 3600, -10800, 86399, 10 ** 15, -10 ** 15]))
+        if k < 0.8: return ("n",)
+        return ("b",)
+    reqs, wants = [], []
+    for _ in range(ctx.budget(1500, 8000)):
+        kind = rng.choice(["none", "map", "map", "call", "call"])
+        ents = {rng.choice(names): val() for _ in range(rng.randrange(0, 4))}
+        dflt = rng.choice([("n",), ("e",), ("r",), val()]) if kind == "call" else ("n",)
+        if kind == "call" and rng.random() < 0.2 and ents:
+            ents[rng.choice(list(ents))] = ("r",)
+        spec = L.TzSpec(kind, ents, dflt)
+        name = rng.choice(names); off = rng.choice([None, 0, 3600, -10800, 10 ** 15])
+        reqs.append("pgen.tzinfo %s %s %s" % (spec.wire(), L.optname(name), _oi(off)))
+        def run():
+            o = p._build_tzinfo(spec.arg(), name, off)
+            if o is None: return "dn"
+            for k, z in enumerate(L.tzobjs()):
+                if o is z: return "do%d" % k
+            if isinstance(o, tz.tzoffset): return "f %s %d" % (L.optname(o._name), int(o._offset.total_seconds()))
+            if isinstance(o, tz.tzstr): return "s" + L.cps(o._s)
+            return "other " + type(o).__name__
+        wants.append(_r(run, str))
+    _cmp(ctx, "pgen.tzinfo", reqs, wants)
+
+
 class _TailCtx:
     """the model_answers machinery of _parser_lib with `parser.parse` requests sent to the TRANSLATED tail of parse()"""
 
@@ -657,3 +693,4 @@ def validate(ctx):
     validate_parsetail(ctx)
     validate_recombine(ctx)
     validate_init(ctx)
+    validate_tzinfo(ctx)
